@@ -895,9 +895,22 @@ func c14BackToBack(c *sim.RunCtx) {
 	fn := remoteexecution.DigestFunction_SHA256
 	if t.Chance(1, 2) {
 		fn = AllDigestFunctions[t.Choose(len(AllDigestFunctions))]
-		for i := range objs {
-			objs[i].D = RefDigest("inst", fn, objs[i].Data)
+	}
+	// half of the runs: one or two objects that span several chunks and
+	// decoder reads (sizes around and beyond the chunk sizes)
+	if t.Chance(1, 2) {
+		for k, n := 0, 1+t.Choose(2); k < n; k++ {
+			i := t.Choose(len(objs))
+			sz := []int{63, 64, 65, 200, 1000, 5000}[t.Choose(6)]
+			data := make([]byte, sz)
+			for j := range data {
+				data[j] = byte(i*41 + j*7 + j/251)
+			}
+			objs[i].Data = data
 		}
+	}
+	for i := range objs {
+		objs[i].D = RefDigest("inst", fn, objs[i].Data)
 	}
 	clients := 1 + t.Choose(3)
 	var plans [][][2]int
@@ -911,7 +924,8 @@ func c14BackToBack(c *sim.RunCtx) {
 	chunk := []int{1, 3, 8, 64}[t.Choose(4)]
 	failRate := []int{0, 0, 100}[t.Choose(3)]
 	clientZstd := t.Chance(1, 2)
-	desc := fmt.Sprintf("back-to-back clients=%d chunk=%d failRate=%d fn=%v clientZstd=%v", clients, chunk, failRate, fn, clientZstd)
+	eofWithData := t.Chance(1, 2)
+	desc := fmt.Sprintf("back-to-back clients=%d chunk=%d failRate=%d fn=%v clientZstd=%v eofWithData=%v", clients, chunk, failRate, fn, clientZstd, eofWithData)
 	c.Sample["case"] = desc
 	c.Note("case %s plans=%v", desc, plans)
 	injected := 0
@@ -931,7 +945,10 @@ func c14BackToBack(c *sim.RunCtx) {
 		// simulated pipe for io.Pipe there)
 		var clientPool bb_zstd.Pool
 		if clientZstd {
-			clientPool = newZstdPool()
+			// (half of them with decoders that hand out their final bytes
+			// together with io.EOF, as io.Reader permits)
+			cp := &countingPool{name: "client", base: newZstdPool(), eofWithData: eofWithData}
+			clientPool = cp
 			conn.compressors = []remoteexecution.Compressor_Value{remoteexecution.Compressor_ZSTD}
 			c.Count("probe_b2b_client_zstd", 1)
 		}
@@ -954,6 +971,7 @@ func c14BackToBack(c *sim.RunCtx) {
 					case 0:
 						src := sim.NewChunkSource("up", &sim.SrcScript{Data: ob.Data, Cuts: []int{len(ob.Data) / 2}, ErrAt: -1})
 						err := ba.Put(ctx, ob.D, buffer.NewCASBufferFromChunkReader(ob.D, src, buffer.UserProvided))
+						c.Logf("Put(o%d, %d bytes) -> %v", o[1], len(ob.Data), err)
 						if err == nil && !backend.Has(ob.D) {
 							c.Fail("put-ok-but-not-stored", "Put(o%d) through client and server succeeded but the backend lacks it [%s]", o[1], desc)
 						}
@@ -967,6 +985,7 @@ func c14BackToBack(c *sim.RunCtx) {
 					case 1:
 						had := backend.Has(ob.D)
 						data, err := ba.Get(ctx, ob.D).ToByteSlice(1 << 20)
+						c.Logf("Get(o%d, %d bytes) had=%v -> %d bytes, %v", o[1], len(ob.Data), had, len(data), err)
 						if err == nil {
 							if !bytes.Equal(data, ob.Data) {
 								c.Fail("wrong-bytes", "Get(o%d) returned %s [%s]", o[1], short(data), desc)
